@@ -575,3 +575,183 @@ def s_fmtstmt(ctx, inputs, fuel=100000):
 def common_short(s):
     return short(s, 200)
 # <<< formatting side
+
+
+# =============================================================================================
+# >>> S-ACC: every read-only accessor / navigation helper of sql.py on every node of the real tree vs the Lean
+#     model (lean/SqlModel/Accessors.lean, command `acc` in lean/SqlModel/AccDriver.lean)
+ACC_CLS_ORDER = ['Statement', 'Identifier', 'IdentifierList', 'TypedLiteral', 'Parenthesis', 'SquareBrackets',
+                 'Assignment', 'If', 'For', 'Comparison', 'Comment', 'Where', 'Over', 'Having', 'Case', 'Function',
+                 'Begin', 'Operation', 'Values', 'Command', 'TokenList']
+ACC_FLAGS = [(True, False), (True, True), (False, False), (False, True)]
+
+
+def acc_line(stmt):
+    """the canonical line of the driver's `acc` command, computed by calling the real accessors on the real objects;
+    returned token objects are mapped back to paths by identity, exceptions become `e<ExceptionName>`"""
+    from sqlparse import sql, tokens as T
+    nodes = []      # (path, token) in pre-order
+
+    def walk(tok, path):
+        nodes.append((path, tok))
+        if tok.is_group:
+            for i, ch in enumerate(tok.tokens):
+                walk(ch, path + (i,))
+    walk(stmt, ())
+    path_of = {id(t): p for p, t in nodes}
+
+    def P(tok):
+        p = path_of.get(id(tok))
+        return '?' if p is None else '/' + '/'.join(map(str, p))
+
+    def S(v):
+        if v is None:
+            return 'N'
+        if isinstance(v, str):
+            return 's' + '.'.join('%x' % ord(c) for c in v)
+        return '?' + type(v).__name__
+
+    def B(v):
+        return 'T' if v is True else 'F' if v is False else '?' + repr(v)
+
+    def L(toks):
+        return '[' + ','.join(P(t) for t in toks) + ']'
+
+    def E(fmt, thunk):
+        try:
+            v = thunk()
+        except Exception as e:
+            return 'e' + type(e).__name__
+        return fmt(v)
+
+    def nums(xs):
+        return ','.join(map(str, xs)) if xs else '-'
+
+    def idx_of(grp, res):
+        """(idx, token) result of token_next/_token_matching -> idx, checking that the token is the child at idx"""
+        i, t = res
+        if i is None:
+            return 'N' if t is None else '?'
+        return str(i) if grp.tokens[i] is t else '?'
+
+    def first_idx(grp, t):
+        if t is None:
+            return 'N'
+        for i, c in enumerate(grp.tokens):
+            if c is t:
+                return str(i)
+        return '?'
+
+    def cases(l):
+        return '[' + ','.join('(%s;%s)' % ('N' if c is None else L(c), L(v)) for c, v in l) + ']'
+
+    classes = [getattr(sql, n) for n in ACC_CLS_ORDER]
+    out = []
+    foreign = sql.Token(T.Name, 'x')
+    for path, tok in nodes:
+        out.append('@%s:%s' % (P(tok), type(tok).__name__ if tok.is_group else '-'))
+        mask = 0
+        for j, c in enumerate(classes):
+            if tok.within(c):
+                mask |= 1 << j
+        out.append('w=%x' % mask)
+        out.append('anc=' + nums([k for k, (_, o) in enumerate(nodes) if tok.has_ancestor(o)]))
+        out.append('chd=' + nums([k for k, (_, o) in enumerate(nodes) if tok.is_child_of(o)]))
+        if not tok.is_group:
+            continue
+        g = tok
+        out.append('fl=' + E(L, lambda: list(g.flatten())))
+        out.append('sl=' + E(L, lambda: list(g.get_sublists())))
+        out.append('tf=' + ','.join(E(lambda t: first_idx(g, t), lambda: g.token_first(skip_ws=w, skip_cm=m))
+                                    for w, m in ACC_FLAGS))
+        out.append('rn=' + E(S, g.get_real_name))
+        out.append('al=' + E(S, g.get_alias))
+        out.append('nm=' + E(S, g.get_name))
+        out.append('pn=' + E(S, g.get_parent_name))
+        out.append('ha=' + E(B, g.has_alias))
+        fn = []
+        for idx in (None, 0, 1, 2):
+            for rev in (False, True):
+                for kw in (False, True):
+                    for rl in (False, True):
+                        fn.append(E(S, lambda: g._get_first_name(idx, reverse=rev, keywords=kw, real_name=rl)))
+        out.append('fn=' + ','.join(fn))
+        if isinstance(g, sql.Statement):
+            out.append('ty=' + E(S, g.get_type))
+            if not path:
+                n = len(str(g))
+                out.append('off=' + ','.join(E(lambda t: 'N' if t is None else P(t),
+                                               lambda: g.get_token_at_offset(o)) for o in range(-1, n + 2)))
+        elif isinstance(g, sql.Identifier):
+            out.append('wc=' + E(B, g.is_wildcard))
+            out.append('tc=' + E(S, g.get_typecast))
+            out.append('or=' + E(S, g.get_ordering))
+            out.append('ai=' + E(lambda ll: '[' + ','.join(L(l) for l in ll) + ']', lambda: list(g.get_array_indices())))
+        elif isinstance(g, sql.IdentifierList):
+            out.append('ids=' + E(L, lambda: list(g.get_identifiers())))
+        elif isinstance(g, sql.Function):
+            out.append('par=' + E(L, lambda: list(g.get_parameters())))
+            out.append('win=' + E(P, g.get_window))
+        elif isinstance(g, sql.Case):
+            out.append('cs0=' + E(cases, lambda: g.get_cases(skip_ws=False)))
+            out.append('cs1=' + E(cases, lambda: g.get_cases(skip_ws=True)))
+        elif isinstance(g, sql.Comparison):
+            out.append('l=' + E(P, lambda: g.left))
+            out.append('r=' + E(P, lambda: g.right))
+        elif isinstance(g, sql.Comment):
+            out.append('ml=' + E(lambda v: 'L' if v == [] and isinstance(v, list) else B(v), g.is_multiline))
+
+        def nav(idx):
+            return (','.join(E(lambda r: idx_of(g, r), lambda: g.token_next(idx, skip_ws=w, skip_cm=m))
+                             for w, m in ACC_FLAGS) + ';' +
+                    ','.join(E(lambda r: idx_of(g, r), lambda: g.token_prev(idx, skip_ws=w, skip_cm=m))
+                             for w, m in ACC_FLAGS))
+        ln = len(g.tokens)
+        for i in range(ln + 2):
+            child = g.tokens[i] if i < ln else foreign
+            ix = ','.join(E(str, lambda: g.token_index(child, st)) for st in (0, i, i + 1))
+            out.append('x%d=%s;%s' % (i, ix, nav(i)))
+        out.append('xN=' + nav(None))
+    return ' '.join(out)
+
+
+def acc_first_diff(model_line, impl_line):
+    """-> (model fragment, impl fragment) around the first differing item, with the node header it belongs to"""
+    a, b = model_line.split(), impl_line.split()
+    k = next((j for j, (x, y) in enumerate(zip(a, b)) if x != y), min(len(a), len(b)))
+    hdr = next((a[j] for j in range(min(k, len(a) - 1), -1, -1) if a[j].startswith('@')), '') if a else ''
+    return hdr + ' ' + ' '.join(a[k:k + 1]), hdr + ' ' + ' '.join(b[k:k + 1])
+
+
+def s_acc(ctx, texts, trees=(), on_line=None):
+    """real side: `sqlparse.parse(text)`, `acc_line` per statement; model side: `acc` on `sexp(stmt)`.
+    `trees`: additional hand-built `sql.Statement` objects (odd shapes `parse` never produces), compared the same way.
+    `on_line(input, impl_line)` is called for every real-side line (census of raised exceptions).
+    Returns the number of statements compared."""
+    import sqlparse
+    reqs = []
+    for st in trees:
+        reqs.append(('tree:' + sexp(st), 'acc ' + sexp(st), acc_line(st)))
+    for text in texts:
+        try:
+            sts = sqlparse.parse(text)
+        except Exception as e:
+            if hasattr(ctx, 'count'):
+                ctx.count('S-ACC parse failed: ' + type(e).__name__)
+            continue
+        for st in sts:
+            try:
+                reqs.append((text, 'acc ' + sexp(st), acc_line(st)))
+            except RecursionError:
+                if hasattr(ctx, 'count'):
+                    ctx.count('S-ACC harness RecursionError')
+    outs = ctx.model.ask([r[1] for r in reqs])
+    for (text, _, io), mo in zip(reqs, outs):
+        if on_line is not None:
+            on_line(text, io)
+        ctx.stream('S-ACC', inputs=1, lines=io.count('@'))
+        if io.split() != mo.split():
+            m, i = acc_first_diff(mo, io)
+            ctx.mismatch('S-ACC', text, m[:300], i[:300])
+    return len(reqs)
+# <<< S-ACC
